@@ -1452,6 +1452,10 @@ mod convert {
             if min_len == 0 || address % min_len != 0 {
                 return Err(ConvertError::UnsupportedLineInstruction);
             }
+            // The op_index must be valid for the line encoding of the converted program.
+            if self.from_row.op_index() >= max_ops {
+                return Err(ConvertError::UnsupportedLineInstruction);
+            }
             (address / min_len)
                 .checked_mul(max_ops)
                 .and_then(|ops| ops.checked_add(self.from_row.op_index()))
